@@ -9,7 +9,7 @@ BUDGET = {
     "quick": dict(shards=16, cases=960, deadline=70),
     "thorough": dict(shards=16, cases=24000, deadline=1200),
 }
-DECIDING = ["bms.read"]
+DECIDING = ["bms.read", "fileio.read_file"]
 RULE = ("Generated BMS texts for each of the five shipped layouts (all lanes): subdivisions 1..192 incl. primes, integer "
         "(channel 03) and extended (channel 08) tempo changes anywhere in a measure, LNOBJ long notes within and across "
         "measures, defined and undefined #WAV ids, header order shuffled, lines in file/sorted/reversed/random order, "
@@ -64,3 +64,10 @@ def run(ctx, case):
         BMSMap.read(lines, cfg)
     except Exception:
         pass
+    if case["cls"] != "corpus" and ctx.cur_k is not None and ctx.cur_k % 5 == 1:
+        from rv.monitors import fileio
+        try:
+            content = "\n".join(lines).encode("shift_jis")
+        except UnicodeEncodeError:
+            return
+        fileio.check_read_file(ctx, "C04", BMSMap, content, args=(cfg,), read_arg=[ln.strip() for ln in lines])
